@@ -195,6 +195,9 @@ class Typer:
 
     def elem_type(self, it: ast.AST, env: dict[str, list[str]]) -> list[str]:
         it = strip_await(it)
+        # a copy / re-ordering of an iterable has the same elements: list(x), tuple(x), sorted(x), reversed(x), set(x)
+        while isinstance(it, ast.Call) and isinstance(it.func, ast.Name) and it.func.id in ("list", "tuple", "sorted", "reversed", "set", "frozenset") and it.args:
+            it = strip_await(it.args[0])
         if isinstance(it, ast.Call) and call_name(it) in ("values", "items") and call_recv(it) is not None:
             r = call_recv(it)
             if isinstance(r, ast.Attribute):
